@@ -545,7 +545,7 @@ func c07SysRun(e *vh.Env, c c07Sys, o *vh.Out, prop string) {
 		rs := vh.Do(sys.Addr, vh.RawReq{Method: "GET", Target: "/r", Headers: hdrs, TimeoutMs: 60000, Instant: ev != 'h'})
 		if ev == 'l' {
 			vh.Settle()
-			if rs.Status != 429 || !strings.Contains(string(rs.Body), "Rate limit exceeded") {
+			if rs.Status != 429 {
 				o.Viol(prop+"|sys|unexpected-response", fmt.Sprintf("%s seq=%s step %d (l): the drained client got %d %q", c.Strategy, c.Seq, i, rs.Status, trunc(string(rs.Body), 60)), nil)
 				return
 			}
@@ -561,17 +561,21 @@ func c07SysRun(e *vh.Env, c c07Sys, o *vh.Out, prop string) {
 		body := string(rs.Body)
 		var out vh.Outcome
 		switch {
-		case rs.Status == 503 && strings.Contains(body, "circuit breaker is open"):
+		// Helios's own refusals are recognised by status and by the fact that no backend was contacted, not by the
+		// wording of their bodies: 503 is what the statement prescribes while the breaker is open; 429 is what the
+		// code answers to a surplus trial (the statement names no status for that, and a 503 there is read as "open",
+		// which the acceptor allows in half-open as well)
+		case rs.Status == 503 && arrived == 0:
 			out = vh.RejOpen
-		case rs.Status == 429 && strings.Contains(body, "circuit breaker half-open"):
+		case rs.Status == 429 && arrived == 0:
 			out = vh.RejMany
 		case ev == 'o' && rs.Status == 200 && rs.Complete, ev == 'n' && rs.Status == 404:
 			out = vh.RanOK
-		case ev == 'f' && rs.Status == 500, ev == 'u' && rs.Status == 503, ev == 'r' && rs.Status == 502:
+		case ev == 'f' && rs.Status == 500, ev == 'u' && rs.Status == 503 && arrived > 0, ev == 'r' && rs.Status >= 500 && arrived > 0:
 			out = vh.RanFail
 		case ev == 'x' && ((rs.Status == 200 && !rs.Complete) || (rs.Status == 0 && rs.Err != "" && arrived > 0)):
 			out = vh.RanPanic // aborted response: truncated body or connection closed without a response
-		case ev == 'h' && arrived > 0 && (rs.Status == 502 || (rs.Status == 0 && rs.Err != "")):
+		case ev == 'h' && arrived > 0 && (rs.Status == 502 || rs.Status == 504 || (rs.Status == 0 && rs.Err != "")):
 			out = vh.RanFail // given up at the write timeout: 502, or nothing if the deadline for writing it had passed too
 		default:
 			o.Viol(prop+"|sys|unexpected-response", fmt.Sprintf("%s seq=%s step %d (%c): status %d complete=%v err=%q body=%q", c.Strategy, c.Seq, i, ev, rs.Status, rs.Complete, rs.Err, trunc(body, 80)), nil)
